@@ -25,7 +25,7 @@ LEVEL = ("(Also: time-dependent relaxation tensors, objects derived inside conte
          "action and propagated dynamics); the context operator must be diagonal ascending; after every exit the "
          "Manager bookkeeping equals the snapshot taken before entry and every object read afterwards equals its "
          "reference in the enclosing basis, including objects created inside."
-         " Later additions: deterministic grid of kinds x flags x context operators; protection applied inside a context; secularize() as a statement; context objects entered again while active; refused dipole-operator constructions.")
+         " Later additions: deterministic grid of kinds x flags x context operators; protection applied inside a context; secularize() as a statement; context objects entered again while active; refused dipole-operator constructions. Round five: a time-dependent Redfield tensor converted to tensor form and then presented in another basis.")
 NOTE = ("Context operators are real symmetric or complex Hermitian (incl. degenerate, already diagonal, repeated). With "
         "complex Hermitian contexts only operators, Hamiltonians, density matrices and closed-system evolutions are "
         "generated: SuperOperator.transform documents a float matrix, and dipole moments / Lindblad operators are "
